@@ -74,6 +74,27 @@ def _call(rng, profile):
     return j
 
 
+def _yaml_call(rng, profile):
+    """A run_scenarios_from_yaml call: 2-3 simulations x 1-2 countries (the shipped YAML driver loop,
+    which writes NMONTHS into each simulation dictionary and re-uses one countries list)."""
+    n_sim = 2 + rng.randrange(2)
+    horizon = rng.pick([48, 72, 120])
+    sims = {}
+    for i in range(n_sim):
+        j = workload.random_job(rng, profile, world_p=0.0, overrides_p=0.2, horizon=horizon)
+        o = dict(j["options"])
+        del o["NMONTHS"]
+        o["title"] = "yaml sim %d" % (i if rng.chance(0.7) else 0)
+        sims["sim_%d" % i] = o
+    cs = []
+    while len(cs) < 1 + rng.randrange(2):
+        c = workload.pick_country(rng)
+        if c not in cs:
+            cs.append(c)
+    countries = cs[0] if len(cs) == 1 and rng.chance(0.5) else cs
+    return {"kind": "yaml", "iso3": "YAML", "config": {"settings": {"countries": countries, "NMONTHS": horizon}, "simulations": sims}}
+
+
 def _fault(rng):
     seam = rng.pick(["solve", "solve", "write", "read", "abort", "clock"])
     if seam == "solve":
@@ -100,14 +121,16 @@ def generate(seed, h, tier):
         elif calls and r < 0.4:
             prev = wl.pick(calls)  # same countries, another scenario
             c = _call(wl, profile)
-            if prev["iso3"] != "WOR" and c["iso3"] != "WOR":
+            if prev["iso3"] not in ("WOR", "YAML") and c["iso3"] != "WOR":
                 c["iso3"], c["countries"] = prev["iso3"], list(prev["countries"])
             calls.append(c)
+        elif r < 0.55:
+            calls.append(_yaml_call(wl, profile))
         else:
             calls.append(_call(wl, profile))
     for i, c in enumerate(calls):
         c["tag"] = i
-        if wl.chance(0.5):
+        if c.get("kind") != "yaml" and wl.chance(0.5):
             c["title"] = "shared"
     fr = rng.sub("faults")
     faults = {}
@@ -123,6 +146,17 @@ def generate(seed, h, tier):
 
 def unit_jobs(call):
     """The (country, scenario) units of a call, each runnable alone."""
+    if call.get("kind") == "yaml":
+        cfg = call["config"]
+        cs = cfg["settings"]["countries"]
+        cs = [cs] if isinstance(cs, str) else cs
+        out = []
+        for _name, sim in cfg["simulations"].items():
+            o = dict(sim)
+            o["NMONTHS"] = cfg["settings"]["NMONTHS"]
+            for c in cs:
+                out.append({"iso3": c, "countries": [c], "options": o, "title": sim["title"]})
+        return out
     if call["iso3"] == "WOR":
         return [{"iso3": "WOR", "options": call["options"], "title": call.get("title", "untitled")}]
     return [
@@ -180,6 +214,42 @@ def fresh_interpreter(job, env):
     return {"status": "harness", "digest": None, "error": (p.stderr or p.stdout)[-800:]}
 
 
+class _YamlTrace:
+    pass
+
+
+def _run_yaml(sim, call, faults, names):
+    """Runs the shipped YAML driver loop on an in-memory config; a spy on run_model_no_trade
+    collects what each iteration returned (the driver itself returns nothing)."""
+    import copy
+
+    m = world.mods()
+    got = []
+    orig = m.rmnt.ScenarioRunnerNoTrade.run_model_no_trade
+
+    def spy(self, *a, **k):
+        out = orig(self, *a, **k)
+        got.append(out[3])
+        return out
+
+    m.rmnt.ScenarioRunnerNoTrade.run_model_no_trade = spy
+    try:
+        cfg = copy.deepcopy(call["config"])
+        status, _v, err = engine_p.run_callable(sim, call.get("tag"), lambda: m.rsfy.run_scenarios_from_yaml(cfg, False, False, True), faults)
+    finally:
+        m.rmnt.ScenarioRunnerNoTrade.run_model_no_trade = orig
+    t = _YamlTrace()
+    t.status, t.error, t.error_msg, t.results, t.result = status, err, err, {}, None
+    cs = call["config"]["settings"]["countries"]
+    cs = [cs] if isinstance(cs, str) else cs
+    t.unit_results = []
+    for si, _sim in enumerate(call["config"]["simulations"]):
+        for c in cs:
+            r = got[si].get(names[c]) if si < len(got) else None
+            t.unit_results.append(r)
+    return t
+
+
 def execute(spec):
     names = _names()
     calls = spec["calls"]
@@ -211,7 +281,10 @@ def execute(spec):
         with engine_p.Sim(rng, log, capture=False) as sim:
             for i, c in enumerate(calls):
                 fl = spec["faults"].get(str(i))
-                t = sim.run_job(c, faults=fl)
+                if c.get("kind") == "yaml":
+                    t = _run_yaml(sim, c, fl, names)
+                else:
+                    t = sim.run_job(c, faults=fl)
                 statuses[t.status.split(":")[0]] = statuses.get(t.status.split(":")[0], 0) + 1
                 faulty = bool(fl)
                 if t.status != "ok":
@@ -228,6 +301,29 @@ def execute(spec):
                     continue
                 if faulty:
                     continue  # survived its fault: its own business (see DESIGN 5/C14)
+                if c.get("kind") == "yaml":
+                    sim_months += 3 * c["config"]["settings"]["NMONTHS"] * len(unit_jobs(c))
+                    for u, interp in zip(unit_jobs(c), t.unit_results):
+                        k = core.digest(u)
+                        ref = refs[k]
+                        if interp is None or ref["status"].startswith("harness"):
+                            continue
+                        dg = engine_p.result_digest(interp)
+                        kept.append((k, interp, dg, i))
+                        clauses["same_as_alone"] += 1
+                        clauses["yaml_driver_units"] = clauses.get("yaml_driver_units", 0) + 1
+                        nontrivial.append(core.digest([[core.digest(x) for x in calls[:i]], k, spec["faults"], "yaml"]))
+                        if ref["status"] != "ok":
+                            violations.append(core.Violation(
+                                ID, "same_as_alone", {"kind": "succeeds_in_history_only", "iso3": u["iso3"], "via": "yaml"},
+                                {"call_index": i, "status_alone": ref["status"]}, "job fails alone but completes inside the YAML driver loop").to_json())
+                        elif dg != ref["digest"]:
+                            violations.append(core.Violation(
+                                ID, "same_as_alone", {"kind": "digest_differs", "iso3": u["iso3"], "via": "yaml"},
+                                {"call_index": i, "digest_in_history": dg, "digest_alone": ref["digest"], "title": u["title"],
+                                 "percent_fed_in_history": float(interp.percent_people_fed)},
+                                "result inside the YAML driver loop differs from the same run executed alone").to_json())
+                    continue
                 sim_months += 3 * c["options"]["NMONTHS"] * len(c.get("countries") or [1])
                 got = {}
                 if c["iso3"] == "WOR":
@@ -292,6 +388,7 @@ def execute(spec):
         "sim_months": sim_months,
         "aborts": 0,
         "sample": {"calls": [[c["iso3"], c.get("countries"), c["options"].get("scenario"), c["options"]["NMONTHS"], c.get("title")]
+                             if c.get("kind") != "yaml" else ["YAML", c["config"]["settings"], list(c["config"]["simulations"])]
                              for c in calls], "faults": spec["faults"], "fresh": spec.get("fresh")},
     }
 
@@ -325,6 +422,14 @@ def shrink(spec):
                 s["calls"][i]["countries"] = [x for x in c["countries"] if x != drop]
                 s["calls"][i]["iso3"] = s["calls"][i]["countries"][0]
                 yield s
+        if c.get("kind") == "yaml":
+            sims = c["config"]["simulations"]
+            if len(sims) > 1:
+                for drop in list(sims):
+                    s = rebuild(list(range(n)))
+                    del s["calls"][i]["config"]["simulations"][drop]
+                    yield s
+            continue
         if c["options"]["NMONTHS"] > 48:
             s = rebuild(list(range(n)))
             s["calls"][i]["options"]["NMONTHS"] = 48
